@@ -213,8 +213,8 @@ class ExecFull(ExecPlaces):
         for r in sorted(roots):
             try:
                 v = self.eval(ast.parse(r, mode="eval").body, fr)
-            except (OutOfSubset, NeedsContract, KeyError):
-                continue
+            except (OutOfSubset, NeedsContract, KeyError, _Raise):
+                continue  # (_Raise: a name the body binds itself, e.g. a nested def, is not bound yet at the loop head: nothing to havoc)
             self.havoc_heap(v, r, deep=True)
 
     def havoc_value(self, v, nm):
